@@ -282,6 +282,11 @@ func raceStorms(r *rng) []raceStorm {
 				if fn == "Sprintf" {
 					args = append([]string{`"%v"`}, args...)
 				}
+				// every third list ends in a number written as text (the aggregates read it as a number: whatever they make of it
+				// must not be written into the list the parser built)
+				if n > 0 && n%3 == 0 && (fn == "Sum" || fn == "Average" || fn == "Minimum" || fn == "Maximum" || fn == "Add") {
+					args[len(args)-1] = `"` + args[len(args)-1] + `"`
+				}
 				q := "$.n." + fn + "(" + strings.Join(args, ",") + ")"
 				op, err := mpath.ParseString(q)
 				if err != nil || op == nil {
